@@ -79,6 +79,21 @@ def templates(E):
         'fail-on': ({'t1': _act('t1', **{'fail-on': E})}, None, ()),
         'task-input': ({'t1': {'action': 'verif.act', 'input': E}}, None,
                        ()),
+        # the same where the task is started by a later transaction of its
+        # own (a join by the refresh job, a delayed task by the scheduler)
+        'task-input-join': (
+            {'a': _act('a', **{'on-success': ['j']}),
+             'b': _act('b', **{'on-success': ['j']}),
+             'j': {'action': 'verif.act', 'input': E, 'join': 'all'}},
+            None, ()),
+        'task-input-wait-before': (
+            {'t1': {'action': 'verif.act', 'input': E, 'wait-before': 1}},
+            None, ()),
+        'subworkflow-input-join': (
+            {'a': _act('a', **{'on-success': ['j']}),
+             'b': _act('b', **{'on-success': ['j']}),
+             'j': {'workflow': 'sub', 'input': E, 'join': 'all'}},
+            None, ()),
         'workflow-name': ({'t1': {'workflow': E}}, None, ()),
         'action-name': ({'t1': {'action': E}}, None, ()),
         'keep-result': ({'t1': _act('t1', **{'keep-result': E})}, None, ()),
